@@ -329,6 +329,11 @@ def gen_scenario(rng: random.Random, P: Profile, name: str) -> Scn:
         scn.start = rng.choice([s.val for s in scn.states])
     n = gen_ops(rng, P, scn, evs)
     gen_acts(rng, P, scn, evs, n)
+    r = rng.random()
+    if r < 0.15:
+        scn.decl_style = "placeholder"
+    elif r < 0.25:
+        scn.decl_style = "spaced"
     if rng.random() < P.p_state_field:
         scn.state_field = rng.choice(["status", "st8", "_s", "current"])
     return scn
